@@ -10,6 +10,10 @@ pub struct AcceptorCfg {
     pub promiscuous: bool,
     /// access control: accept only requests whose called AE title is ours
     pub accept_called_only: bool,
+    /// the acceptor's own maximum PDU length, when configured (what it announces and applies to what it receives;
+    /// it must not influence what is recorded for the requestor)
+    #[serde(default)]
+    pub max_pdu_length: Option<u32>,
 }
 
 pub const STD_APP_CTX: &str = "1.2.840.10008.3.1.1.1";
